@@ -54,4 +54,22 @@ CHECKS["C05"] = {
     "text": "C05: delivered => now >= T - 1 ms; due for more than the latency bound => delivered; before that only the delayed category returns it.",
     "note": "Redis and AMQP servers are in-process fakes (fakes/); RabbitMQ server-side expiry is not modelled (client obligation only); 'millisecond resolution' read as 1 ms tolerance",
 }
+CHECKS["C01"] = {
+    "engine": "symx+vloop+fakes",
+    "technique": "solver-enumerated bounded histories of broker-API calls (well-behavedness as the precondition) executed on the real in-memory, Redis and RabbitMQ broker classes (fake servers) and compared step by step with a reference lifecycle model; last call optionally cancelled after a solver-chosen number of loop steps",
+    "text": "C01: after every call each message is in exactly the place the lifecycle model prescribes with its latest payload; a cancelled call leaves the broker as before or as after the complete call.",
+    "note": "selectors are discrete, so the solver contributes enumeration and pruning only; one queue/topic/priority; history length 4 (quick) / 5 (thorough); Redis and AMQP servers are stubs; queue_flush/delete and id reuse are outside the claim",
+}
+CHECKS["C14"] = {
+    "engine": "symx+vloop+fakes",
+    "technique": "solver-enumerated call histories of two in-memory consumers, solver-enumerated server-side interleavings of two Redis clients' round trips (discrete scheduler), and two Worker.run() with symbolic real durations on one queue",
+    "text": "C14: a message is delivered only if nobody holds it; a successful job is executed exactly once.",
+    "note": "RabbitMQ exclusivity is the server's and is not modelled; Redis interleaving granularity = one round trip (MULTI/EXEC atomic)",
+}
+CHECKS["C15"] = {
+    "engine": "symx+vloop+fakes",
+    "technique": "solver-enumerated own/foreign backlog patterns and enqueue/consume/reject/ack interleavings on the real consumers (in-memory, Redis with fetch windows 2/3/10 on a fake server, RabbitMQ client on a fake server), FIFO oracle over 'waiting since'",
+    "text": "C15: a fresh message is never delivered while an older waiting message (or one returned earlier) is still waiting; waiting messages are eventually delivered.",
+    "note": "equal priority; RabbitMQ server ordering is part of the stub; delayed-category order is outside the claim",
+}
 NOT_APPLICABLE = {}
